@@ -19,7 +19,26 @@ Three parts (DESIGN §4 C13):
    sensitivities 1..4): TLC checks the counter invariant and dumps the labelled
    state graph; EVERY edge is replayed on the real class (source state reached
    by replaying a BFS path) and verdict + counters are compared.
+
+Round-3 families (EXTENDING.md; every one is an additional task, labels say which):
+  Votes|..|n0          the empty member list (every rule is defined on it: 0 alarms)
+  VotesFar             thresholds far above n (n+2 .. 2**63, 10**30): never drift
+  VotesZero            OrderedApproval(a = 0, c >= 1) -- the rule "at least a + c"
+  VotesReuse           ONE election object serving member lists of every length
+                       0..N in interleaved order (nothing may survive a call)
+  VotesSpell           reports in other legal spellings: equal-but-not-identical
+                       str objects, numpy.str_, a str subclass; members that expose
+                       drift_state through a property / __slots__ / a real
+                       menelaus detector whose state was set through its setter
+  Confirmed|fam-*      n = 0; sensitivity 0 and far above n; spelled reports;
+                       wait_time 6..40 (complete counter-state space)
+  ConfirmedStagger     n = 3, wait_time 5 (every pair of alarm offsets 0..7),
+                       300 (boundary offsets) and 10**9 (never expires): staggered
+                       alarms followed by long quiet stretches, in lock-step with
+                       the model; variants quiet / sustained drift / warning pause
+  ConfirmedTLA         thorough: N = 4, MaxSens = 5 (2.3e6 edges)
 """
+import array
 import itertools
 import os
 import re
@@ -29,6 +48,10 @@ import tempfile
 import time
 from collections import Counter, deque
 
+import numpy as np
+
+from menelaus.concept_drift import DDM
+from menelaus.data_drift import HDDDM
 from menelaus.ensemble import (
     ConfirmedElection,
     MinimumApprovalElection,
@@ -57,6 +80,76 @@ def stubs(vec):
     return [Stub(s) for s in vec]
 
 
+class PropStub:
+    """drift_state behind a property (as on every real detector)."""
+
+    def __init__(self, state):
+        self._hidden = state
+
+    @property
+    def drift_state(self):
+        return self._hidden
+
+
+class SlotStub:
+    __slots__ = ("drift_state",)
+
+    def __init__(self, state):
+        self.drift_state = state
+
+
+class StrSub(str):
+    """a str subclass: still the string "drift" / "warning" for every comparison"""
+
+
+def _real_stream(state):
+    d = DDM()
+    d.drift_state = state  # through the validating setter, as tests/menelaus/test_ensemble.py does
+    return d
+
+
+def _real_batch(state):
+    d = HDDDM()
+    d.drift_state = state
+    return d
+
+
+MEMBER_KINDS = (Stub, PropStub, SlotStub, _real_stream, _real_batch)
+N_SPELL = 4
+
+
+def spell(s, k):
+    """An equal, legal spelling of the report ``s`` (None has only one)."""
+    if s is None:
+        return None
+    k %= N_SPELL
+    if k == 0:
+        return s
+    if k == 1:
+        t = "".join(list(s))  # equal to the literal, not the interned object
+        return t
+    if k == 2:
+        return np.str_(s)
+    return StrSub(s)
+
+
+def spelled_members(vec, pos, ctx=None):
+    """Members for the spelling families: spelling and member kind rotate with
+    (position of the call, index of the member)."""
+    out = []
+    for i, s in enumerate(vec):
+        k = (pos + i) % N_SPELL
+        r = spell(s, k)
+        kind = MEMBER_KINDS[(pos // N_SPELL + 2 * i) % len(MEMBER_KINDS)]
+        out.append(kind(r))
+        if ctx is not None and s is not None:
+            if r is not s:
+                ctx.count("spelled_report_equal_but_not_identical")
+            ctx.count("spelled_report_%s" % ("literal", "rebuilt_str", "numpy_str", "str_subclass")[k])
+            ctx.count("spelled_member_kind_%s" % kind.__name__.lstrip("_"))
+    return out
+
+
 def make_election(kind, params):
     if kind == "SimpleMajority":
         return SimpleMajorityElection()
@@ -72,9 +165,33 @@ def make_election(kind, params):
     raise ValueError(kind)
 
 
-def _call(el, vec, sub):
+class _CtorFailed:
+    def __init__(self, exc):
+        self.exc = exc
+
+
+def _construct(kind, params):
+    """The constructor must accept every parameter value of the families (plain ints); a refusal is reported as a
+    violation by the first call instead of crashing the harness."""
     try:
-        return el(stubs(vec))
+        return make_election(kind, params)
+    except Exception as e:  # noqa: BLE001
+        return _CtorFailed(e)
+
+
+def _constructed(el, kind, params):
+    if isinstance(el, _CtorFailed):
+        raise Violation(
+            kind + "-constructor-exception",
+            "%s(%r) could not be constructed: %s: %s" % (kind, params, type(el.exc).__name__, el.exc),
+            expected="an election object",
+            observed=repr(el.exc),
+        )
+
+
+def _call(el, vec, sub, members=None):
+    try:
+        return el(stubs(vec) if members is None else members)
     except Exception as e:  # the property allows no exception on any vote pattern
         raise Violation(
             sub + "-exception",
@@ -97,16 +214,21 @@ class VoteSys(System):
     name = "Votes"
 
     def init(self, cfg):
-        return {"el": make_election(cfg["kind"], cfg["params"]), "model": M.make_model(cfg["kind"], cfg["params"])}
+        return {"el": _construct(cfg["kind"], cfg["params"]), "model": M.make_model(cfg["kind"], cfg["params"])}
 
     def alphabet(self, cfg, state, pos):
+        if cfg.get("lengths") is not None:
+            return interleaved_vectors(cfg["lengths"])
         return [list(v) for v in itertools.product(REPORTS, repeat=cfg["n"])]
 
     def step(self, cfg, state, ev, pos, ctx):
         kind = cfg["kind"]
         el = state["el"]
         vec = list(ev)
-        got = _call(el, vec, kind)
+        fam = cfg.get("family")
+        _constructed(el, kind, cfg["params"])
+        members = spelled_members(vec, pos, ctx) if cfg.get("spell") else None
+        got = _call(el, vec, kind, members)
         if not _is_verdict(got, ("drift",)):
             raise Violation(
                 kind + "-range",
@@ -143,6 +265,26 @@ class VoteSys(System):
                         )
         # anti-vacuity bookkeeping
         n = len(vec)
+        if n == 0:
+            ctx.count("empty_member_list_calls")
+            ctx.count("empty_member_list_%s" % kind)
+        if fam == "reuse":
+            if state.get("last_n") is not None and state["last_n"] != n:
+                ctx.count("reuse_length_changed_between_calls")
+                if state["last_n"] > n:
+                    ctx.count("reuse_shorter_list_after_longer")
+                if state.get("last_verdict") == "drift" and got is None:
+                    ctx.count("reuse_none_right_after_drift_on_another_length")
+            state["last_n"] = n
+            state["last_verdict"] = got
+        if fam == "far":
+            ctx.count("far_parameter_calls")
+            if k == n and n > 0:
+                ctx.count("far_parameter_all_members_drift_still_none")
+        if fam == "zero":
+            ctx.count("ordered_zero_approvals_calls")
+            if got == "drift" and k == cfg["params"]["confirmations_needed"]:
+                ctx.count("ordered_zero_approvals_threshold_exactly_met")
         if kind == "SimpleMajority":
             if 2 * k == n:
                 ctx.count("majority_exact_half_is_not_drift")
@@ -181,6 +323,83 @@ def stateless_cfgs(kind, n):
     ]
 
 
+FAR = (2, 7, 300, 2 ** 31, 2 ** 63, 10 ** 30)  # added to n: thresholds far above the number of members
+
+
+def far_cfgs(kind, n):
+    """Thresholds far above n (the rule is unambiguous: never drift)."""
+    if kind == "MinimumApproval":
+        return [
+            {"id": "MAfar-n%d-a%d" % (n, n + f), "kind": kind, "n": n, "family": "far", "params": {"approvals_needed": n + f}}
+            for f in FAR
+        ]
+    out = []
+    for f in FAR:
+        for a, c in ((n + f, 0), (n + f, 1), (1, n + f), (max(1, n), n + f), (n + f, n + f)):
+            out.append(
+                {"id": "OAfar-n%d-a%d-c%d" % (n, a, c), "kind": kind, "n": n, "family": "far",
+                 "params": {"approvals_needed": a, "confirmations_needed": c}}
+            )
+    return out
+
+
+def zero_cfgs(n):
+    """OrderedApproval with no initial approvals: a = 0, c = 1..n+1 (a + c >= 1; a = c = 0 is left out, see describe())."""
+    return [
+        {"id": "OAzero-n%d-c%d" % (n, c), "kind": "OrderedApproval", "n": n, "family": "zero",
+         "params": {"approvals_needed": 0, "confirmations_needed": c}}
+        for c in range(1, n + 2)
+    ]
+
+
+def interleaved_vectors(lengths):
+    """Every vector of every length in ``lengths``, interleaved so that consecutive calls
+    (almost) always have different lengths; the shorter lists are cycled."""
+    lists = [[list(v) for v in itertools.product(REPORTS, repeat=n)] for n in lengths]
+    longest = max(len(l) for l in lists)
+    out = []
+    for j in range(longest):
+        # alternate long / short: lengths in the order N, 0, N-1, 1, ...
+        order = []
+        lo, hi = 0, len(lists) - 1
+        while lo <= hi:
+            order.append(hi)
+            if lo != hi:
+                order.append(lo)
+            lo, hi = lo + 1, hi - 1
+        for li in order:
+            out.append(lists[li][j % len(lists[li])])
+    return out
+
+
+def reuse_cfgs(kind, nmax):
+    lengths = list(range(0, nmax + 1))
+    base = {"kind": kind, "n": "0..%d" % nmax, "lengths": lengths, "family": "reuse"}
+    if kind == "SimpleMajority":
+        return [dict(base, id="SMreuse", params={})]
+    if kind == "MinimumApproval":
+        return [dict(base, id="MAreuse-a%d" % a, params={"approvals_needed": a}) for a in range(1, nmax + 2)]
+    return [
+        dict(base, id="OAreuse-a%d-c%d" % (a, c), params={"approvals_needed": a, "confirmations_needed": c})
+        for a in range(1, nmax + 1)
+        for c in range(0, 3)
+    ]
+
+
+def family_cfgs(task):
+    fam = task.get("family")
+    if fam == "far":
+        return far_cfgs(task["kind"], task["n"])
+    if fam == "zero":
+        return zero_cfgs(task["n"])
+    if fam == "reuse":
+        return reuse_cfgs(task["kind"], task["n"])
+    cfgs = stateless_cfgs(task["kind"], task["n"])
+    if fam == "spell":
+        cfgs = [dict(c, id=c["id"] + "-spell", spell=True, family="spell") for c in cfgs]
+    return cfgs
+
+
 def stateless_task(task, seed):
     """All vectors of {None, warning, drift}^n on one election object per parameter set."""
     t0 = time.time()
@@ -189,7 +408,7 @@ def stateless_task(task, seed):
     st = ctx.stats
     violations = []
     samples = []
-    for cfg in stateless_cfgs(task["kind"], task["n"]):
+    for cfg in family_cfgs(task):
         state = sysm.init(cfg)
         st["states"] += 1
         history = []
@@ -277,7 +496,7 @@ class ConfirmedSys(System):
 
     def init(self, cfg):
         p = {"sensitivity": cfg["sensitivity"], "wait_time": cfg["wait_time"]}
-        return {"el": make_election("Confirmed", p), "model": M.make_model("Confirmed", p)}
+        return {"el": _construct("Confirmed", p), "model": M.make_model("Confirmed", p)}
 
     def alphabet(self, cfg, state, pos):
         return [list(v) for v in itertools.product(REPORTS, repeat=cfg["n"])]
@@ -289,9 +508,11 @@ class ConfirmedSys(System):
     def step(self, cfg, state, ev, pos, ctx):
         el = state["el"]
         vec = list(ev)
+        _constructed(el, "Confirmed", {"sensitivity": cfg["sensitivity"], "wait_time": cfg["wait_time"]})
         before = el.wait_period_counters
         before = None if before is None else tuple(before)
-        got = _call(el, vec, "Confirmed")
+        members = spelled_members(vec, pos, ctx) if cfg.get("spell") else None
+        got = _call(el, vec, "Confirmed", members)
         exp = state["model"].step(vec)
         _check_confirmed_call(cfg, el, vec, got, exp)
         if self.expanded is not None:
@@ -320,6 +541,17 @@ class ConfirmedSys(System):
             ctx.count("confirmed_warning_threshold_exactly_met")
         if w == 0 and before is not None and exp["alarms"]:
             ctx.count("confirmed_wait0_alarm_expires_at_once")
+        fam = cfg.get("family")
+        if fam:
+            ctx.count("confirmed_family_%s_calls" % fam)
+            if fam == "sens0" and got == "drift" and not exp["voters"]:
+                ctx.count("confirmed_sensitivity0_drift_without_any_voter")
+            if fam == "sensfar" and len(exp["voters"]) == len(vec) and vec:
+                ctx.count("confirmed_sensitivity_far_all_members_vote_still_none")
+            if fam == "longwait" and exp["expired"]:
+                ctx.count("confirmed_long_wait_expired", exp["expired"])
+            if fam == "n0":
+                ctx.count("confirmed_empty_member_list_calls")
         return {"verdict": got, "counters": cs}
 
 
@@ -346,6 +578,112 @@ def confirmed_task(task, seed):
         res["stats"]["confirmed_counter_states_reached"] = len(srcs) - 1
         res["stats"]["confirmed_state_vector_pairs"] = len(expanded)
     return res
+
+
+# --------------------------------------------------------------------------
+# part 2b: staggered alarms and long quiet stretches (n = 3)
+# --------------------------------------------------------------------------
+STAGGER_VARIANTS = ("quiet", "sustained", "pause")
+
+
+def stagger_script(wait, offsets, variant, tail):
+    """Member i alarms at call offsets[i]; afterwards
+      quiet     -- it reports None (its waiting time runs out ``wait`` calls later),
+      sustained -- it keeps reporting drift (so it alarms again in the call after its time ran out),
+      pause     -- as quiet, but EVERY member reports warning in call number ``wait`` (for the member that alarmed in
+                   call 0 that is the call of its last vote: the warning postpones it by exactly one call).
+    ``tail`` quiet calls follow the last possible expiry."""
+    horizon = max(offsets) + min(wait, 10 ** 4) + 2 + tail
+    out = []
+    for t in range(horizon):
+        vec = []
+        for d in offsets:
+            if t == d:
+                r = "drift"
+            elif variant == "sustained" and t > d:
+                r = "drift"
+            elif variant == "pause" and t == wait:
+                r = "warning"
+            else:
+                r = None
+            vec.append(r)
+        out.append(vec)
+    return out
+
+
+def stagger_offsets(wait):
+    if wait <= 8:
+        return list(range(0, wait + 3))  # every offset up to two calls after the first member's expiry
+    if wait >= 10 ** 6:
+        return [0, 1, 5]
+    return [0, 1, 2, wait // 2, wait - 1, wait, wait + 1, wait + 2]
+
+
+def stagger_task(task, seed):
+    """n = 3: member 0 alarms in call 0, members 1 and 2 at every pair of offsets; lock-step with the model."""
+    t0 = time.time()
+    sysm = SYSTEMS["Confirmed"]
+    ctx = Ctx(seed)
+    st = ctx.stats
+    violations, samples = [], []
+    reported = Counter()
+    wait = task["wait_time"]
+    tail = 400 if wait >= 10 ** 6 else 3
+    offs = stagger_offsets(wait)
+    for sens in task["sensitivities"]:
+        cfg = {"id": "CEstagger-s%d-w%d" % (sens, wait), "n": 3, "sensitivity": sens, "wait_time": wait, "family": "stagger"}
+        for d1 in offs:
+            for d2 in offs:
+                for variant in STAGGER_VARIANTS:
+                    script = stagger_script(wait, (0, d1, d2), variant, tail)
+                    state = sysm.init(cfg)
+                    st["states"] += 1
+                    st["stagger_scripts"] += 1
+                    st["stagger_scripts_%s" % variant] += 1
+                    marks = 0
+                    prev = None
+                    try:
+                        for pos, vec in enumerate(script):
+                            ctx.marks = 0
+                            obs = sysm.step(cfg, state, vec, pos, ctx)
+                            st["transitions"] += 1
+                            marks += 1 if ctx.marks else 0
+                            cs = obs["counters"]
+                            if wait < 10 ** 6:
+                                nz = [c for c in cs if c]
+                                if len(nz) >= 2 and len(set(nz)) == len(nz):
+                                    st["stagger_members_at_different_points_of_their_wait"] += 1
+                                if prev is not None:
+                                    gone = sum(1 for a, b in zip(prev, cs) if a == wait and b == 0)
+                                    if gone:
+                                        st["stagger_expiry_exactly_after_wait_time_votes"] += gone
+                                    if gone >= 2:
+                                        st["stagger_two_members_expire_in_one_call"] += 1
+                                    if gone and obs["verdict"] == "drift":
+                                        st["stagger_drift_on_a_members_last_vote"] += 1
+                                    if variant == "sustained" and any(a == 0 and b == 1 for a, b in zip(prev, cs)) and pos > max(d1, d2):
+                                        st["stagger_realarm_right_after_expiry"] += 1
+                                    if variant == "pause" and pos == wait and any(a == b != 0 for a, b in zip(prev, cs)):
+                                        st["stagger_warning_postpones_last_vote"] += 1
+                            elif pos == len(script) - 1 and all(c > 300 for c in cs):
+                                st["stagger_never_expiring_counters_beyond_300"] += 1
+                            prev = cs
+                    except Violation as v:
+                        st["violations_raw"] += 1
+                        reported[v.sig] += 1
+                        if reported[v.sig] <= 2:
+                            evs = script[: pos + 1]
+                            obs2, v2 = run_path(sysm, cfg, evs, seed)
+                            if v2 is None:
+                                raise HarnessError("HARNESS-NONDET: staggered-alarm violation did not reproduce: %r" % (cfg,))
+                            violations.append(artefact(PROPERTY, sysm, cfg, seed, evs[: len(obs2) + 1], v2))
+                        continue
+                    st["executions"] += 1
+                    if marks:
+                        st["nontrivial_executions"] += 1
+                    if len(samples) < 1 and variant == "pause" and d1 and d2 and d1 != d2:
+                        samples.append({"system": sysm.name, "cfg": cfg, "events": script, "last_obs": obs, "nontrivial_events": marks})
+    return {"stats": dict(st), "violations": violations, "samples": samples, "wall": time.time() - t0}
 
 
 # --------------------------------------------------------------------------
@@ -389,7 +727,20 @@ def _tla_vec(text):
 
 
 def _parse_graph(path):
-    nodes, edges = {}, []
+    """-> nodes {id: state}, edges as three parallel compact arrays (source id index, target id index, vector index),
+    the list of node ids and the list of distinct vote vectors (the N = 4 graph has 2.3e6 edges)."""
+    nodes = {}
+    ids, id_index = [], {}
+    vecs, vec_index = [], {}
+    eu, ev, evec = array.array("l"), array.array("l"), array.array("h")
+
+    def idx(nid):
+        i = id_index.get(nid)
+        if i is None:
+            i = id_index[nid] = len(ids)
+            ids.append(nid)
+        return i
+
     with open(path) as f:
         for line in f:
             line = line.strip()
@@ -399,28 +750,42 @@ def _parse_graph(path):
                 a = re.match(r"Call\((<<.*>>)\)$", lab)
                 if not a:
                     raise HarnessError("HARNESS-CRASH: unexpected TLC edge label %r" % lab)
-                edges.append((m.group(1), m.group(2), _tla_vec(a.group(1))))
+                vi = vec_index.get(a.group(1))
+                if vi is None:
+                    vi = vec_index[a.group(1)] = len(vecs)
+                    vecs.append(_tla_vec(a.group(1)))
+                eu.append(idx(m.group(1)))
+                ev.append(idx(m.group(2)))
+                evec.append(vi)
                 continue
             m = _NODE.match(line)
             if m:
                 lab = m.group(2).replace('\\"', '"').replace("\\\\", "\\")
                 var = dict(re.findall(r"/\\ (\w+) = (.*?)(?=\\n|$)", lab))
-                nodes[m.group(1)] = {
+                nodes[idx(m.group(1))] = {
                     "verdict": var["verdict"].strip('"'),
                     "last": _tla_vec(var["last"]),
                     "c": [int(x) for x in re.findall(r"\d+", var["c"])],
                     "wait": int(var["wait"]),
                     "sens": int(var["sens"]),
                 }
-    return nodes, edges
+    return nodes, (eu, ev, evec), vecs
 
 
-def run_tlc(workdir):
+def run_tlc(workdir, consts):
     tlc = shutil.which("tlc")
     if tlc is None:
         raise HarnessError("HARNESS-CRASH: tlc not on PATH, cannot run the secondary TLA+ model")
-    for f in ("ConfirmedElection.tla", "ConfirmedElection.cfg"):
-        shutil.copy(os.path.join(HERE, "tla", f), workdir)
+    shutil.copy(os.path.join(HERE, "tla", "ConfirmedElection.tla"), workdir)
+    # the committed .cfg carries the quick-tier constants; the bound of this run is substituted into the copy
+    with open(os.path.join(HERE, "tla", "ConfirmedElection.cfg")) as f:
+        text = f.read()
+    for name, key in (("N", "n"), ("MaxWait", "wait_max"), ("MaxSens", "sens_max")):
+        text, k = re.subn(r"(?m)^(\s*%s\s*=\s*)\d+\s*$" % name, lambda m: m.group(1) + str(consts[key]), text)
+        if k != 1:
+            raise HarnessError("HARNESS-CRASH: constant %s not found in tla/ConfirmedElection.cfg" % name)
+    with open(os.path.join(workdir, "ConfirmedElection.cfg"), "w") as f:
+        f.write(text)
     os.makedirs(os.path.join(workdir, "jtmp"))
     dot = os.path.join(workdir, "graph.dot")
     env = dict(os.environ)
@@ -429,7 +794,7 @@ def run_tlc(workdir):
         tlc, "-workers", "1", "-noGenerateSpecTE", "-metadir", os.path.join(workdir, "meta"),
         "-dump", "dot,actionlabels", dot, "-deadlock", "-config", "ConfirmedElection.cfg", "ConfirmedElection.tla",
     ]
-    p = subprocess.run(cmd, cwd=workdir, env=env, stdout=subprocess.PIPE, stderr=subprocess.STDOUT, text=True, timeout=900)
+    p = subprocess.run(cmd, cwd=workdir, env=env, stdout=subprocess.PIPE, stderr=subprocess.STDOUT, text=True, timeout=1800)
     out = p.stdout
     if p.returncode != 0 or "Model checking completed. No error has been found." not in out:
         # the TLA+ model violating its own invariants is a defect of the model, not of menelaus
@@ -445,21 +810,25 @@ def tla_task(task, seed):
     samples = []
     base = "/dev/shm" if os.path.isdir("/dev/shm") and os.access("/dev/shm", os.W_OK) else None
     workdir = tempfile.mkdtemp(prefix="c13-tlc-", dir=base)
+    consts = task["consts"]
     try:
-        dot, (generated, distinct) = run_tlc(workdir)
+        dot, (generated, distinct) = run_tlc(workdir, consts)
         st["tlc_wall_ms"] = int(1000 * (time.time() - t0))
-        nodes, edges = _parse_graph(dot)
+        nodes, (eu, ev, evec), vecs = _parse_graph(dot)
     finally:
         shutil.rmtree(workdir, ignore_errors=True)
-    n = task["n"]
-    if len(nodes) != distinct or not edges or len(edges) != len(nodes) * 3 ** n:
+    n = consts["n"]
+    n_edges = len(eu)
+    if len(nodes) != distinct or not n_edges or n_edges != len(nodes) * 3 ** n:
         raise HarnessError(
-            "HARNESS-CRASH: TLC graph incomplete: %d nodes (TLC says %d distinct), %d edges" % (len(nodes), distinct, len(edges))
+            "HARNESS-CRASH: TLC graph incomplete: %d nodes (TLC says %d distinct), %d edges" % (len(nodes), distinct, n_edges)
         )
-    # BFS paths from the initial states
+    if any(nd["wait"] > consts["wait_max"] or nd["sens"] > consts["sens_max"] or len(nd["c"]) != n for nd in nodes.values()):
+        raise HarnessError("HARNESS-CRASH: TLC graph was not computed for the constants %r" % (consts,))
+    # outgoing edges per node, BFS paths from the initial states
     out = {}
-    for e in edges:
-        out.setdefault(e[0], []).append(e)
+    for j in range(n_edges):
+        out.setdefault(eu[j], []).append(j)
     parent = {}
     q = deque()
     for nid, nd in nodes.items():
@@ -471,9 +840,10 @@ def tla_task(task, seed):
         u = q.popleft()
         if len(out.get(u, ())) != 3 ** n:
             raise HarnessError("HARNESS-CRASH: TLC node %s has %d outgoing edges" % (u, len(out.get(u, ()))))
-        for (_, v, vec) in out[u]:
+        for j in out[u]:
+            v = ev[j]
             if v not in parent:
-                parent[v] = (u, vec)
+                parent[v] = (u, evec[j])
                 q.append(v)
     if len(parent) != len(nodes):
         raise HarnessError("HARNESS-CRASH: %d TLC nodes unreachable from the initial states" % (len(nodes) - len(parent)))
@@ -481,8 +851,8 @@ def tla_task(task, seed):
     def script_to(nid):
         evs = []
         while parent[nid] is not None:
-            u, vec = parent[nid]
-            evs.append({"votes": vec, "verdict": None if nodes[nid]["verdict"] == "none" else nodes[nid]["verdict"], "counters": nodes[nid]["c"]})
+            u, vi = parent[nid]
+            evs.append({"votes": vecs[vi], "verdict": None if nodes[nid]["verdict"] == "none" else nodes[nid]["verdict"], "counters": nodes[nid]["c"]})
             nid = u
         evs.reverse()
         return evs
@@ -491,48 +861,52 @@ def tla_task(task, seed):
     ctx = Ctx(seed, collect=False)
     cstates = set()
     reported = Counter()
-    for (u, v, vec) in edges:
-        nu, nv = nodes[u], nodes[v]
-        if nv["last"] != vec or (nu["wait"], nu["sens"]) != (nv["wait"], nv["sens"]):
-            raise HarnessError("HARNESS-CRASH: TLC edge label %r does not match its target state %r" % (vec, nv))
+    for u in out:
+        nu = nodes[u]
+        script = script_to(u)
         cfg = {"id": "tla-s%d-w%d" % (nu["sens"], nu["wait"]), "n": n, "sensitivity": nu["sens"], "wait_time": nu["wait"]}
         cstates.add((nu["wait"], nu["sens"], tuple(nu["c"]), nu["verdict"] == "init"))
-        script = script_to(u)
-        last = {"votes": vec, "verdict": None if nv["verdict"] == "none" else nv["verdict"], "counters": nv["c"]}
-        state = sysm.init(cfg)
-        try:
-            for pos, ev in enumerate(script):
-                sysm.step(cfg, state, ev, pos, ctx)
-            # the source state of the edge must be the TLA+ state
-            cs = state["el"].wait_period_counters
-            if (cs is None) != (nu["verdict"] == "init") or (cs is not None and list(cs) != nu["c"]):
-                raise Violation("tla-source-state", "replayed path ends in counters %r, TLC state has %r" % (cs, nu["c"]),
-                                expected=nu["c"], observed=cs)
-            obs = sysm.step(cfg, state, last, len(script), ctx)
-        except Violation as vio:
-            st["violations_raw"] += 1
-            reported[vio.sig] += 1
-            if reported[vio.sig] <= 2:
-                evs = script + [last]
-                obs2, v2 = run_path(sysm, cfg, evs, seed)
-                if v2 is None:
-                    raise HarnessError("HARNESS-NONDET: TLC edge violation did not reproduce: %r" % (evs,))
-                violations.append(artefact(PROPERTY, sysm, cfg, seed, evs[: len(obs2) + 1], v2))
-            continue
-        st["tla_edges_replayed"] += 1
-        st["transitions"] += 1
-        st["executions"] += 1
-        if obs["verdict"] is not None:
-            st["nontrivial_executions"] += 1
-            st["tla_edges_verdict_" + obs["verdict"]] += 1
-        else:
-            st["tla_edges_verdict_none"] += 1
-        if nu["wait"] and any(c == nu["wait"] for c in obs["counters"]):
-            st["tla_edges_into_counter_at_wait_time"] += 1
-        if len(samples) < 1 and obs["verdict"] == "warning" and len(script) >= 2:
-            samples.append({"system": sysm.name, "cfg": cfg, "events": script + [last], "last_obs": obs, "nontrivial_events": 1})
+        for j in out[u]:
+            vec = vecs[evec[j]]
+            nv = nodes[ev[j]]
+            if nv["last"] != vec or (nu["wait"], nu["sens"]) != (nv["wait"], nv["sens"]):
+                raise HarnessError("HARNESS-CRASH: TLC edge label %r does not match its target state %r" % (vec, nv))
+            last = {"votes": vec, "verdict": None if nv["verdict"] == "none" else nv["verdict"], "counters": nv["c"]}
+            state = sysm.init(cfg)  # every edge on a fresh object, along the BFS path to its source state
+            try:
+                for pos, e in enumerate(script):
+                    sysm.step(cfg, state, e, pos, ctx)
+                # the source state of the edge must be the TLA+ state
+                cs = state["el"].wait_period_counters
+                if (cs is None) != (nu["verdict"] == "init") or (cs is not None and list(cs) != nu["c"]):
+                    raise Violation("tla-source-state", "replayed path ends in counters %r, TLC state has %r" % (cs, nu["c"]),
+                                    expected=nu["c"], observed=cs)
+                obs = sysm.step(cfg, state, last, len(script), ctx)
+            except Violation as vio:
+                st["violations_raw"] += 1
+                reported[vio.sig] += 1
+                if reported[vio.sig] <= 2:
+                    evs = script + [last]
+                    obs2, v2 = run_path(sysm, cfg, evs, seed)
+                    if v2 is None:
+                        raise HarnessError("HARNESS-NONDET: TLC edge violation did not reproduce: %r" % (evs,))
+                    violations.append(artefact(PROPERTY, sysm, cfg, seed, evs[: len(obs2) + 1], v2))
+                continue
+            st["tla_edges_replayed"] += 1
+            st["transitions"] += 1
+            st["executions"] += 1
+            if obs["verdict"] is not None:
+                st["nontrivial_executions"] += 1
+                st["tla_edges_verdict_" + obs["verdict"]] += 1
+            else:
+                st["tla_edges_verdict_none"] += 1
+            if nu["wait"] and any(c == nu["wait"] for c in obs["counters"]):
+                st["tla_edges_into_counter_at_wait_time"] += 1
+            if len(samples) < 1 and obs["verdict"] == "warning" and len(script) >= 2:
+                samples.append({"system": sysm.name, "cfg": cfg, "events": script + [last], "last_obs": obs, "nontrivial_events": 1})
     st["states"] = len(nodes)
     st["tla_states"] = len(nodes)
+    st["tla_members"] = n
     st["tla_initial_states"] = n_init
     st["tla_states_generated_by_tlc"] = generated
     st["tla_counter_states"] = len(cstates)
@@ -543,16 +917,43 @@ def tla_task(task, seed):
 SYSTEMS = {"Votes": VoteSys(), "Confirmed": ConfirmedSys(), "ConfirmedTLA": ScriptSys()}
 
 BOUNDS = {
-    "quick": {"n_stateless": 5, "n_confirmed": 4, "wait_max": 3},
-    "thorough": {"n_stateless": 6, "n_confirmed": 5, "wait_max": 3},
+    "quick": {"n_stateless": 5, "n_confirmed": 4, "wait_max": 3, "n_reuse": 4, "n_far": 3, "n_spell": 4},
+    "thorough": {"n_stateless": 6, "n_confirmed": 5, "wait_max": 3, "n_reuse": 5, "n_far": 5, "n_spell": 5},
 }
-TLA_BOUNDS = {"n": 3, "wait_max": 2, "sensitivities": [1, 2, 3, 4]}
+TLA_BOUNDS = {
+    "quick": {"n": 3, "wait_max": 2, "sens_max": 4},
+    # N = 4: TLC needs ~30 s, the graph has 28 513 states / 2 309 553 edges (measured), all replayed
+    "thorough": {"n": 4, "wait_max": 2, "sens_max": 5},
+}
+# (n, wait_time) pairs whose complete counter-state space is explored besides the base grid
+LONG_WAITS = {"quick": [(1, 40), (2, 9), (3, 6)], "thorough": [(1, 40), (2, 12), (3, 8), (4, 4)]}
+STAGGER_WAITS = (5, 300, 10 ** 9)
+SENS_FAR = (3, 10 ** 9)  # added to n
+
+
+def _confirmed(n, s, w, fam=None, spell=False):
+    cfg = {"id": "CE%s-n%d-s%d-w%d" % ("" if fam is None else fam, n, s, w), "n": n, "sensitivity": s, "wait_time": w}
+    label = "Confirmed|n%d|s%d|w%d" % (n, s, w)
+    if fam is not None:
+        cfg["family"] = fam
+        label = "Confirmed|fam-%s|n%d|s%d|w%d" % (fam, n, s, w)
+    if spell:
+        cfg["spell"] = True
+    return {
+        "fn": "confirmed_task",
+        "system": "Confirmed",
+        "cfg": cfg,
+        "prefix": [],
+        "depth": w + 2,
+        "label": label,
+        "cost": (w + 1) ** n * 3 ** n / 100.0,
+    }
 
 
 def tasks(tier, seed):
     b = BOUNDS[tier]
     out = []
-    for n in range(1, b["n_stateless"] + 1):
+    for n in range(0, b["n_stateless"] + 1):  # n = 0 (the empty member list) is a round-3 family
         for kind in ("SimpleMajority", "MinimumApproval", "OrderedApproval"):
             out.append(
                 {
@@ -566,22 +967,56 @@ def tasks(tier, seed):
     for n in range(1, b["n_confirmed"] + 1):
         for w in range(0, b["wait_max"] + 1):
             for s in range(1, n + 2):
-                out.append(
-                    {
-                        "fn": "confirmed_task",
-                        "system": "Confirmed",
-                        "cfg": {"id": "CE-n%d-s%d-w%d" % (n, s, w), "n": n, "sensitivity": s, "wait_time": w},
-                        "prefix": [],
-                        "depth": w + 2,
-                        "label": "Confirmed|n%d|s%d|w%d" % (n, s, w),
-                        "cost": (w + 1) ** n * 3 ** n / 100.0,
-                    }
-                )
-    out.append({"fn": "tla_task", "n": TLA_BOUNDS["n"], "label": "ConfirmedTLA|tlc", "cost": 1e9})
-    return out
+                out.append(_confirmed(n, s, w))
+    out.append({"fn": "tla_task", "consts": TLA_BOUNDS[tier], "label": "ConfirmedTLA|tlc|n%d" % TLA_BOUNDS[tier]["n"], "cost": 1e9})
+    base, out = out, []
+
+    # ---- round 3 ----------------------------------------------------------
+    for kind in ("MinimumApproval", "OrderedApproval"):
+        for n in range(0, b["n_far"] + 1):
+            out.append({"fn": "stateless_task", "family": "far", "kind": kind, "n": n,
+                        "label": "VotesFar|%s|n%d" % (kind, n), "cost": 3 ** n / 50.0})
+    for n in range(0, b["n_far"] + 1):
+        out.append({"fn": "stateless_task", "family": "zero", "kind": "OrderedApproval", "n": n,
+                    "label": "VotesZero|OrderedApproval|n%d" % n, "cost": 3 ** n / 100.0})
+    for kind in ("SimpleMajority", "MinimumApproval", "OrderedApproval"):
+        out.append({"fn": "stateless_task", "family": "reuse", "kind": kind, "n": b["n_reuse"],
+                    "label": "VotesReuse|%s|n0..%d" % (kind, b["n_reuse"]), "cost": 3 ** b["n_reuse"] / 10.0})
+        for n in range(1, b["n_spell"] + 1):
+            out.append({"fn": "stateless_task", "family": "spell", "kind": kind, "n": n,
+                        "label": "VotesSpell|%s|n%d" % (kind, n), "cost": 3 ** n * (n + 2) / 200.0})
+    for w in (0, 2):
+        for s in (0, 1, 2):
+            out.append(_confirmed(0, s, w, "n0"))
+    for n in (1, 2, 3):
+        for w in (0, 1, 2):
+            out.append(_confirmed(n, 0, w, "sens0"))
+            for f in SENS_FAR:
+                out.append(_confirmed(n, n + f, w, "sensfar"))
+    for w in (0, 1, 2):
+        for s in (1, 2, 3, 4):
+            out.append(_confirmed(3, s, w, "spell", spell=True))
+    for n, w in LONG_WAITS[tier]:
+        for s in sorted({1, n, n + 1} if n > 1 else {1, 2}):
+            out.append(_confirmed(n, s, w, "longwait"))
+    for w in STAGGER_WAITS:
+        for s in (1, 2, 3):
+            out.append({"fn": "stagger_task", "wait_time": w, "sensitivities": [s],
+                        "label": "ConfirmedStagger|w%d|s%d" % (w, s), "cost": 50 if w == 300 else 5})
+    # VERIF_ROUND3=off / only: run the pre-round-3 tasks / the round-3 families alone (used to show which family
+    # catches a mutant; the default is everything).  "Votes|*|n0" counts as round 3.
+    n0 = [t for t in base if t["label"].startswith("Votes|") and t["label"].endswith("|n0")]
+    base = [t for t in base if t not in n0]
+    if ROUND3 == "off":
+        return base
+    if ROUND3 == "only":
+        return n0 + out
+    return base + out
 
 
-REQUIRED = [
+ROUND3 = os.environ.get("VERIF_ROUND3", "")
+
+_REQUIRED = [
     # every verdict of every election
     "SimpleMajority_verdict_drift",
     "SimpleMajority_verdict_none",
@@ -616,7 +1051,57 @@ REQUIRED = [
     "tla_edges_verdict_warning",
     "tla_edges_verdict_none",
     "tla_edges_into_counter_at_wait_time",
+    # ---- round 3 (nothing here depends on VERIF_SEED: the check draws no random numbers) ----
+    "empty_member_list_calls",
+    "empty_member_list_SimpleMajority",
+    "empty_member_list_MinimumApproval",
+    "empty_member_list_OrderedApproval",
+    "confirmed_empty_member_list_calls",
+    "far_parameter_calls",
+    "far_parameter_all_members_drift_still_none",
+    "ordered_zero_approvals_calls",
+    "ordered_zero_approvals_threshold_exactly_met",
+    "reuse_length_changed_between_calls",
+    "reuse_shorter_list_after_longer",
+    "reuse_none_right_after_drift_on_another_length",
+    "spelled_report_equal_but_not_identical",
+    "spelled_report_rebuilt_str",
+    "spelled_report_numpy_str",
+    "spelled_report_str_subclass",
+    "spelled_member_kind_PropStub",
+    "spelled_member_kind_SlotStub",
+    "spelled_member_kind_real_stream",
+    "spelled_member_kind_real_batch",
+    "confirmed_family_n0_calls",
+    "confirmed_family_sens0_calls",
+    "confirmed_sensitivity0_drift_without_any_voter",
+    "confirmed_family_sensfar_calls",
+    "confirmed_sensitivity_far_all_members_vote_still_none",
+    "confirmed_family_spell_calls",
+    "confirmed_family_longwait_calls",
+    "confirmed_long_wait_expired",
+    "confirmed_family_stagger_calls",
+    "stagger_scripts_quiet",
+    "stagger_scripts_sustained",
+    "stagger_scripts_pause",
+    "stagger_members_at_different_points_of_their_wait",
+    "stagger_expiry_exactly_after_wait_time_votes",
+    "stagger_two_members_expire_in_one_call",
+    "stagger_drift_on_a_members_last_vote",
+    "stagger_realarm_right_after_expiry",
+    "stagger_warning_postpones_last_vote",
+    "stagger_never_expiring_counters_beyond_300",
+    "tla_members",
 ]
+_R3_AT = _REQUIRED.index("empty_member_list_calls")
+
+
+def REQUIRED(tier):
+    if ROUND3 == "off":
+        return _REQUIRED[:_R3_AT]
+    if ROUND3 == "only":
+        return [r for r in _REQUIRED[_R3_AT:] if r != "tla_members"]
+    return list(_REQUIRED)
 
 
 def describe(tier):
@@ -627,21 +1112,42 @@ def describe(tier):
         "wait_period_counters as transposition key until every reachable counter state has been expanded with every "
         "vote vector (checked: (wait+1)^n states x 3^n vectors per parameter set); (3) every edge of the state graph "
         "TLC computes for tla/ConfirmedElection.tla replayed on the real class from a fresh object along a BFS path. "
+        "Round 3: the same enumeration for n = 0, for thresholds far above n, for OrderedApproval(0, c >= 1), for one "
+        "election object serving member lists of all lengths 0..N interleaved, for reports in other legal spellings "
+        "on other kinds of member objects; ConfirmedElection additionally with n = 0, sensitivity 0 / far above n, "
+        "spelled reports, long waits (complete counter-state space) and scripted staggered alarms (n = 3, every pair "
+        "of offsets) with long quiet stretches in lock-step with the model. "
         "An execution is one election call compared with the rule; non-trivial = verdict other than None",
         "bounds": {
             "reports": ["None", "warning", "drift"],
-            "stateless_n": [1, b["n_stateless"]],
+            "stateless_n": [0, b["n_stateless"]],
             "approvals_needed": "1..n+1",
             "confirmations_needed": "0..n+1",
             "confirmed_n": [1, b["n_confirmed"]],
             "confirmed_sensitivity": "1..n+1",
             "confirmed_wait_time": [0, b["wait_max"]],
-            "tla": TLA_BOUNDS,
+            "tla": TLA_BOUNDS[tier],
+            "round3": {
+                "far_thresholds": ["n+%d" % f for f in FAR],
+                "far_n": [0, b["n_far"]],
+                "ordered_zero_approvals": "a = 0, c = 1..n+1, n = 0..%d" % b["n_far"],
+                "reuse_lengths": "0..%d interleaved (N,0,N-1,1,...), MinimumApproval a = 1..N+1, OrderedApproval a = 1..N x c = 0..2" % b["n_reuse"],
+                "spellings": ["literal", "equal str rebuilt at run time", "numpy.str_", "str subclass"],
+                "member_kinds": ["attribute stub", "property stub", "__slots__ stub", "DDM (state set through the setter)", "HDDDM (same)"],
+                "spell_n": [1, b["n_spell"]],
+                "confirmed_n0": "n = 0, sensitivity 0..2, wait_time 0 and 2",
+                "confirmed_sensitivity_0_and_far": "n = 1..3, wait_time 0..2, sensitivity 0, n+3, n+10^9",
+                "confirmed_spelled": "n = 3, wait_time 0..2, sensitivity 1..4",
+                "confirmed_long_waits_(n,wait)": LONG_WAITS[tier],
+                "stagger": {"n": 3, "wait_times": list(STAGGER_WAITS), "sensitivities": [1, 2, 3], "variants": list(STAGGER_VARIANTS),
+                            "offsets": "wait 5: every pair from 0..7; wait 300: every pair from {0,1,2,150,299,300,301,302}; "
+                            "wait 10^9: every pair from {0,1,5} followed by 400 quiet calls"},
+            },
         },
         "explanation": "states = election objects x vote vectors (stateless rules) + reachable ConfirmedElection counter "
         "states + TLC states; traces_validated_against_impl = election calls on the real classes compared with the "
-        "rule (stateless: one per vector and parameter set; ConfirmedElection: maximal DFS paths) plus the TLC edges "
-        "replayed on the real class (counter tla_edges_replayed)",
+        "rule (stateless: one per vector and parameter set; ConfirmedElection: maximal DFS paths; staggered scripts: one per script) "
+        "plus the TLC edges replayed on the real class (counter tla_edges_replayed)",
         "assumptions": [
             "members are seen by an election only through their drift_state attribute (stubs)",
             "\"newly reports drift\" = reports drift while its wait counter is 0 (DESIGN §4 C13); with wait_time 0 a member "
@@ -649,5 +1155,14 @@ def describe(tier):
             "wait_period_counters[i] is read as 'voting calls since member i's alarm, 0 when idle' (property anchor)",
             "TLC (tla2tools) is trusted to enumerate the state graph of the secondary model; the graph is then checked "
             "edge by edge against the implementation, not against the Python model",
+            "the empty member list is inside 'every list of detector states': 0 alarms, so None unless the threshold is 0",
+            "parameter 0: ConfirmedElection(sensitivity=0) (always drift: 0 voters reach it) and OrderedApproval(0, c>=1) "
+            "are explored; MinimumApproval(0) is outside the documented domain ('can be 1 to the maximum number of "
+            "detectors') and OrderedApproval(0, 0) is degenerate (the literal rule says 'always drift', the class "
+            "answers only when some member alarms): both are left out, not judged",
+            "legal spellings of a report are None and any str equal to \"drift\" / \"warning\" (what the drift_state setter "
+            "of every detector accepts); other values (\"Drift\", False, 0, \"\") are not legal and not used",
+            "one ConfirmedElection object is never called with member lists of different lengths: its counters are "
+            "sized by the first call and the documentation promises nothing for a changing number of members",
         ],
     }
